@@ -71,7 +71,11 @@ class Worker:
         except BrokenPipeError:
             line = ""
         if not line:
-            raise WorkerError("worker died: " + "".join(self._err[-40:]))
+            try:
+                rc = self.p.wait(timeout=5)
+            except Exception:
+                rc = "?"
+            raise WorkerError("worker died (exit status %s): %s" % (rc, "".join(self._err[-40:])))
         return json.loads(line)
 
     def close(self):
